@@ -173,6 +173,18 @@ class ZStr:
         return f"ZStr({self.t})"
 
 
+class NumStr:
+    """the canonical decimal rendering of an integer term ('-' sign for negatives, no leading zeros, no '+').
+    Digit strings and integers are in bijection, so parsing and comparing stay in integer arithmetic."""
+    __slots__ = ('v',)
+
+    def __init__(self, v):
+        self.v = v
+
+    def __repr__(self):
+        return f"NumStr({self.v})"
+
+
 class SegStr:
     """a string made of literal pieces and 32-hex-digit uuid pieces: list of str | ('uuid', term)"""
     __slots__ = ('segs',)
@@ -190,7 +202,17 @@ class SegStr:
         self.segs = out
 
     def length(self):
-        return sum(len(s) if isinstance(s, str) else 32 for s in self.segs)
+        n = 0
+        for s in self.segs:
+            if isinstance(s, str):
+                n += len(s.encode())
+            elif s[0] == 'uuid':
+                n += 32
+            elif s[0] == 'uuidh':
+                n += 36
+            else:
+                raise ValueError('variable-length segment')
+        return n
 
     def __repr__(self):
         return f"SegStr({self.segs})"
